@@ -33,6 +33,7 @@ pub struct PeerState {
     pub events: Vec<Value>,
     pub datas: Vec<Value>, // decoded header of each data frame written (firmware upload): raw bytes
     pub chunk: usize,      // max bytes per poll_read (0 = unlimited)
+    pub wchunk: usize,     // max bytes accepted per poll_write (0 = unlimited): partial writes
 }
 
 #[derive(Clone, Default)]
@@ -68,6 +69,8 @@ impl AsyncRead for Peer {
 impl AsyncWrite for Peer {
     fn poll_write(self: Pin<&mut Self>, _: &mut Context<'_>, buf: &[u8]) -> Poll<std::io::Result<usize>> {
         let mut s = self.0.lock().unwrap();
+        let take = if s.wchunk > 0 { buf.len().min(s.wchunk) } else { buf.len() };
+        let buf = &buf[..take];
         s.wbuf.extend_from_slice(buf);
         // recognise complete frames
         loop {
@@ -129,6 +132,7 @@ pub fn make_peer(case: &Value) -> Peer {
         let req = case["req"].as_array().unwrap();
         s.cmd_cf = (req[0].as_u64().unwrap() as u8, req[1].as_u64().unwrap() as u8);
         s.chunk = case.get("chunk").and_then(|c| c.as_u64()).unwrap_or(0) as usize;
+        s.wchunk = case.get("wchunk").and_then(|c| c.as_u64()).unwrap_or(0) as usize;
     }
     p
 }
